@@ -287,18 +287,43 @@ Qed.
 
 (* ---------------------------------------------------------------- Tag() lower-cases: nothing changes on lower-case input *)
 Definition lower_stable (s : str) : Prop := lower s = s.
+(* the exact str.lower() on ASCII text is the ASCII map *)
+Definition ascii (s : str) : Prop := forallb (fun c => c <? 128) s = true.
+Lemma lower_go_ascii s : forall b, ascii s -> NamesX.lower_go b s = map lc s.
+Proof.
+  unfold ascii. induction s as [|c s IH]; intros b H; [reflexivity|]. cbn [forallb] in H. apply andb_prop in H as [Hc Hs].
+  cbn [NamesX.lower_go map]. rewrite (IH _ Hs). unfold NamesX.lower_at, NamesX.lower_x. rewrite Hc.
+  apply N.ltb_lt in Hc. destruct (N.eqb_spec c 931); [lia|]. unfold lc, Names.is_upper. destruct ((65 <=? c) && (c <=? 90)); reflexivity.
+Qed.
+Lemma lower_ascii s : ascii s -> lower s = map lc s.
+Proof. apply lower_go_ascii. Qed.
+Lemma ascii_app a b : ascii a -> ascii b -> ascii (a ++ b).
+Proof. unfold ascii. intros. rewrite forallb_app. now apply andb_true_intro. Qed.
+Lemma digits_ascii s : forallb is_digit s = true -> ascii s.
+Proof.
+  unfold ascii. induction s as [|c s IH]; cbn [forallb]; auto. intros H. apply andb_prop in H as [H1 H2]. rewrite IH by assumption.
+  unfold is_digit in H1. apply andb_prop in H1 as [_ H1]. apply N.leb_le in H1. destruct (N.ltb_spec c 128); [reflexivity | lia].
+Qed.
+Lemma lower_ascii_app a b : ascii a -> ascii b -> lower (a ++ b) = lower a ++ lower b.
+Proof. intros A B. rewrite !lower_ascii by (auto using ascii_app). apply map_app. Qed.
 Lemma lc_digit c : is_digit c = true -> lc c = c.
 Proof.
   unfold is_digit, lc. intros H. apply andb_prop in H as [H1 H2]. apply N.leb_le in H1, H2.
   destruct (N.leb_spec 65 c); cbn; auto. lia.
 Qed.
 Lemma lower_digits s : forallb is_digit s = true -> lower s = s.
-Proof. unfold lower. induction s as [|c s IH]; cbn [forallb map]; auto. intros H. apply andb_prop in H as [H1 H2]. now rewrite lc_digit, IH. Qed.
-Lemma lower_app a b : lower (a ++ b) = lower a ++ lower b.
-Proof. apply map_app. Qed.
-Lemma lower_nodot l : lower (nodot l) = nodot l.
 Proof.
-  apply lower_digits. unfold nodot. induction l as [|x l IH]; cbn; auto. rewrite forallb_app, dn_digits. exact IH.
+  intros H. rewrite (lower_ascii s (digits_ascii s H)). induction s as [|c s IH]; cbn [forallb map] in *; auto.
+  apply andb_prop in H as [H1 H2]. now rewrite lc_digit, IH.
+Qed.
+Lemma nodot_digits l : forallb is_digit (nodot l) = true.
+Proof. unfold nodot. induction l as [|x l IH]; cbn; auto. rewrite forallb_app, dn_digits. exact IH. Qed.
+Lemma lower_nodot l : lower (nodot l) = nodot l.
+Proof. apply lower_digits, nodot_digits. Qed.
+(* a lower-case ASCII prefix (cp, py ...) followed by digits *)
+Lemma lower_pfx_nodot pfx l : ascii pfx -> map lc pfx = pfx -> lower (pfx ++ nodot l) = pfx ++ nodot l.
+Proof.
+  intros A E. rewrite lower_ascii_app by (auto using digits_ascii, nodot_digits). rewrite lower_nodot, (lower_ascii pfx A), E. reflexivity.
 Qed.
 Lemma lower_tags_id (l : list tag) :
   (forall i a p, In (i, a, p) l -> lower_stable i /\ lower_stable a /\ lower_stable p) -> map lower_tag l = l.
@@ -313,7 +338,7 @@ Proof.
   rewrite Forall_forall in Ha, Hp. split; [|split; auto].
   - unfold cp_blocks in H. cbv zeta in H. rewrite !in_app_iff in H.
     assert (L : forall v, lower_stable (s_cp ++ nodot v)).
-    { intros v. unfold lower_stable. now rewrite lower_app, lower_nodot. }
+    { intros v. unfold lower_stable. now apply lower_pfx_nodot. }
     destruct H as [H|[H|[H|H]]].
     + apply in_map_iff in H as [? [E _]]. pinj E. apply L.
     + destruct (cp_use_abi3 pv abis); [|contradiction]. destruct H as [E|[]]. pinj E. apply L.
@@ -334,6 +359,15 @@ Proof.
   - destruct r as [|c r]; cbn; auto. apply negb_true_iff in H2. now rewrite H2.
   - apply andb_prop in H1 as [D H1]. cbn [span]. rewrite D, IH; auto.
 Qed.
+Lemma is_digit_ud c : is_digit c = true -> is_ud c = true.
+Proof. intros H. unfold is_ud. now rewrite H. Qed.
+Lemma span_ud_stop ds r : forallb is_digit ds = true -> (match r with [] => true | c :: _ => negb (is_ud c) end) = true ->
+  span is_ud (ds ++ r) = (ds, r).
+Proof.
+  induction ds as [|d ds IH]; cbn [app forallb]; intros H1 H2.
+  - destruct r as [|c r]; cbn; auto. apply negb_true_iff in H2. now rewrite H2.
+  - apply andb_prop in H1 as [D H1]. cbn [span]. rewrite (is_digit_ud d D), IH; auto.
+Qed.
 Definition abi_flags (c : abicfg) (pv : pyver) : str :=
   flag (abi_threading c pv) s_t ++ flag (abi_debug c) s_d ++ flag (abi_pymalloc c pv) s_m ++ flag (abi_ucs4 c pv) s_u.
 Lemma cpython_abis_first c pv : exists more, cpython_abis c pv = (s_cp ++ nodot2 pv ++ abi_flags c pv) :: more.
@@ -347,11 +381,11 @@ Proof.
   - rewrite nodot2_minor. split; [rewrite forallb_app, !dn_digits; reflexivity|].
     intros H. apply app_eq_nil in H as [H _]. exact (dn_nonnil _ H).
 Qed.
-Lemma threaded_abi_flags pv fl : (match fl with [] => true | c :: _ => negb (is_digit c) end) = true ->
+Lemma threaded_abi_flags pv fl : (match fl with [] => true | c :: _ => negb (is_ud c) end) = true ->
   threaded_abi (s_cp ++ nodot2 pv ++ fl) = existsb (N.eqb 116) (fst (span not_nl fl)).
 Proof.
   intros H. destruct (nodot2_digits pv) as [D NE]. unfold threaded_abi, s_cp. cbn [app].
-  rewrite !N.eqb_refl. cbn [andb]. rewrite (span_digits_stop _ _ D H). destruct (nodot2 pv); [congruence|reflexivity].
+  rewrite !N.eqb_refl. cbn [andb]. rewrite (span_ud_stop _ _ D H). destruct (nodot2 pv); [congruence|reflexivity].
 Qed.
 (* the default ABI list is recognised as free-threaded exactly when the configuration is (3.13+ with Py_GIL_DISABLED) *)
 Lemma default_abi_threaded c pv : is_threaded (cpython_abis c pv) = abi_threading c pv.
